@@ -108,6 +108,7 @@ type Store struct {
 
 	Loaded  bool
 	BootErr error
+	startCtx context.Context // non-nil: the context of the next Load
 }
 
 // NewStore registers node + disk. dir is e.g. "/sim/s0".
@@ -156,6 +157,39 @@ func (st *Store) aggLimits() frac.AggLimits {
 
 // Start boots a new incarnation: NewFracManager -> Load -> Start -> NewGrpcV1, executed on a
 // task of the node. Returns "loaded", "dead" (the process died while booting) or "timeout".
+// pollCtx is a start-up context that gets cancelled after its Done channel was asked for n times
+// (the replay loop polls it once per block): an operator's SIGTERM arriving in the middle of start-up.
+type pollCtx struct {
+	n, seen int
+	ch      chan struct{}
+	closed  bool
+}
+
+func (c *pollCtx) Deadline() (time.Time, bool) { return time.Time{}, false }
+func (c *pollCtx) Value(any) any               { return nil }
+func (c *pollCtx) Done() <-chan struct{} {
+	c.seen++
+	if c.seen >= c.n && !c.closed {
+		c.closed = true
+		close(c.ch)
+	}
+	return c.ch
+}
+func (c *pollCtx) Err() error {
+	if c.closed {
+		return context.Canceled
+	}
+	return nil
+}
+
+// StartCancelled boots like Start, but the start-up context is cancelled at its n-th poll. Returns
+// "loaded" if start-up finished before that, otherwise what Start returns for a failed boot.
+func (st *Store) StartCancelled(timeout time.Duration, polls int) string {
+	st.startCtx = &pollCtx{n: max(1, polls), ch: make(chan struct{})}
+	defer func() { st.startCtx = nil }()
+	return st.Start(timeout)
+}
+
 func (st *Store) Start(timeout time.Duration) string {
 	st.Loaded = false
 	st.FM, st.API, st.BootErr = nil, nil, nil
@@ -170,7 +204,11 @@ func (st *Store) Start(timeout time.Duration) string {
 	}
 	t := st.Sim.GoOn(st.Node, func() {
 		fm := fracmanager.NewFracManager(st.fmConfig())
-		if err := fm.Load(context.Background()); err != nil {
+		var ctx context.Context = context.Background()
+		if st.startCtx != nil {
+			ctx = st.startCtx
+		}
+		if err := fm.Load(ctx); err != nil {
 			st.BootErr = err
 			verifsim.ProcessExit("load error: " + err.Error())
 			return
@@ -491,12 +529,23 @@ type FracInfo struct {
 // Fracs lists the store's fractions in list order.
 func (st *Store) Fracs() []FracInfo {
 	var out []FracInfo
-	if st.FM == nil {
+	// never walk the objects of a dead incarnation: its tasks were torn down wherever they stood, possibly
+	// inside a critical section, and the lock would never be released
+	if st.FM == nil || !st.Node.Alive() {
 		return nil
 	}
-	for _, f := range st.FM.GetAllFracs() {
-		i := f.Info()
-		out = append(out, FracInfo{Name: i.Name(), Docs: i.DocsTotal, From: uint64(i.From), To: uint64(i.To), Sealed: i.SealingTime != 0, CreatedMs: i.CreationTime, Size: i.FullSize()})
+	// on a task of the node: if the node dies while the listing walks its locks, the caller is released
+	fm := st.FM
+	done := false
+	st.Call(10*time.Minute, func() {
+		for _, f := range fm.GetAllFracs() {
+			i := f.Info()
+			out = append(out, FracInfo{Name: i.Name(), Docs: i.DocsTotal, From: uint64(i.From), To: uint64(i.To), Sealed: i.SealingTime != 0, CreatedMs: i.CreationTime, Size: i.FullSize()})
+		}
+		done = true
+	})
+	if !done {
+		return nil
 	}
 	return out
 }
